@@ -105,6 +105,10 @@ class Documents(HypPart):
         refs = int(case['tape'][:2] or '0', 16) % 3 == 0
         return check_case(case, {'exclude': self.excludes(), 'refs': refs})
 
+    def describe(self, case):
+        refs = int(case['tape'][:2] or '0', 16) % 3 == 0
+        return build(case, {'exclude': self.excludes(), 'refs': refs})[1]
+
     def excludes(self):
         # writer switches that remove the input classes of open findings (see known_findings.json)
         return ['lazy_with_setext', 'lazy_after_indented', 'adjacent_lists', 'empty_last_item_then_sibling']
